@@ -16,6 +16,34 @@ fn ch(c: Choice) -> String {
 fn mkchoice(b: bool) -> Choice {
     (if b { 0u64 } else { 1u64 }).ct_zero()
 }
+/// "<0|1>[r<k>]": a Choice with the given truth value produced along route k (default 0) - a consumer (selector, option,
+/// algebra) must behave the same however the Choice came into being
+fn mkroute(spec: &str) -> Choice {
+    let b = spec.as_bytes()[0] == b'1';
+    let k: usize = if spec.len() > 2 { spec[2..].parse().unwrap() } else { 0 };
+    let two = [1u8, 2u8];
+    let other = [1u8, 3u8];
+    match k {
+        0 => mkchoice(b),
+        1 => mkchoice(!b).negate(),
+        2 => mkchoice(b).negate().negate(),
+        3 => 7u64.ct_eq(if b { 7 } else { 8 }),
+        4 => 7u64.ct_ne(if b { 8 } else { 7 }),
+        5 => (&two).ct_ne(if b { &other } else { &two }),
+        6 => u64::ct_ge(if b { 3 } else { 2 }, 3),
+        7 => u64::ct_le(3, if b { 3 } else { 2 }),
+        8 => mkchoice(b) | mkchoice(true).negate(),
+        9 => mkchoice(!b).negate() ^ mkchoice(false),
+        10 => mkchoice(!b).negate() & mkchoice(false).negate(),
+        11 => <&[u8; 2]>::ct_ge(if b { &other } else { &two }, &other),
+        12 => (&two[..]).ct_ne(if b { &other[..] } else { &two[..] }),
+        13 => (&two).ct_nonzero() & mkchoice(b),
+        14 => u64::ct_gt(if b { 1u64 << 63 } else { 0 }, 5),
+        15 => u64::ct_lt(5, if b { u64::MAX } else { 5 }),
+        _ => panic!("route {}", k),
+    }
+}
+pub const NROUTES: usize = 16;
 fn u64s(v: &[u8]) -> Vec<u64> {
     v.chunks(8).map(|c| u64::from_le_bytes(<[u8; 8]>::try_from(c).unwrap())).collect()
 }
@@ -159,12 +187,12 @@ pub fn run(op: &str, a: &[&str]) -> Vec<String> {
         }
         // choice <a:0|1> <b:0|1> -> and or xor neg(a)
         "choice" => {
-            let (x, y) = (mkchoice(a[0] == "1"), mkchoice(a[1] == "1"));
-            vec![ch(x & y), ch(x | y), ch(x ^ y), ch(x.negate())]
+            let (x, y) = (mkroute(a[0]), mkroute(a[1]));
+            vec![ch(x & y), ch(x | y), ch(x ^ y), ch(x.negate()), ch(x), ch(y.negate().negate())]
         }
         // ctopt <present:0|1> <value>
         "ctopt" => {
-            let o: CtOption<Vec<u8>> = CtOption::from((mkchoice(a[0] == "1"), expand(a[1])));
+            let o: CtOption<Vec<u8>> = CtOption::from((mkroute(a[0]), expand(a[1])));
             vec![match o.into_option() {
                 Some(v) => format!("SOME:{}", hex(&v)),
                 None => "NONE".into(),
@@ -173,7 +201,7 @@ pub fn run(op: &str, a: &[&str]) -> Vec<String> {
         // swap64/set64 <choice> <a> <b> (bytes, N u64 each; N in 0..=40)
         "swap64" | "set64" => {
             let (mut x, mut y) = (u64s(&expand(a[1])), u64s(&expand(a[2])));
-            let c = mkchoice(a[0] == "1");
+            let c = mkroute(a[0]);
             macro_rules! f {
                 ($n:literal) => {{
                     let xa = <&mut [u64; $n]>::try_from(&mut x[..]).unwrap();
@@ -193,7 +221,7 @@ pub fn run(op: &str, a: &[&str]) -> Vec<String> {
         "swap32" | "set32" => {
             let to = |v: &[u8]| -> Vec<i32> { v.chunks(4).map(|c| i32::from_le_bytes(<[u8; 4]>::try_from(c).unwrap())).collect() };
             let (mut x, mut y) = (to(&expand(a[1])), to(&expand(a[2])));
-            let c = mkchoice(a[0] == "1");
+            let c = mkroute(a[0]);
             macro_rules! f {
                 ($n:literal) => {{
                     let xa = <&mut [i32; $n]>::try_from(&mut x[..]).unwrap();
